@@ -306,7 +306,8 @@ package lua
 
 //@ define uvsValid(L *LState) bool = forall u *Upvalue :: u != nil && !u.closed && u.reg != nil ==> u.reg == L.reg && 0 <= u.index && u.index < len(L.reg.array)
 
-//@ func (*LState).closeUpvalues [C03 C07]
+//@ func (*LState).closeUpvalues [C03 C05 C07]
+//@ logged
 //@ requires ls != nil && ls.reg != nil && Inv_reg(ls.reg) && uvsValid(ls)
 //@ noraise
 //@ ensures  uvsValid(ls) && Inv_reg(ls.reg) && ls.reg == old(ls.reg) && ls.reg.top == old(ls.reg.top) && ls.reg.array == old(ls.reg.array)
